@@ -157,14 +157,14 @@ func selfTestDER() error {
 			TLV(0x30, append(longLen(2, ri, 1), TLV(2, si)...)),
 			TLV(0x30, append(TLV(2, ri), longLen(2, si, 2)...)),
 			append([]byte{0x30, 0x80}, append(append([]byte{}, body...), 0, 0)...), // indefinite length
-			TLV(0x30, TLV(2, ri)),                                  // one integer
+			TLV(0x30, TLV(2, ri)), // one integer
 			TLV(0x30, append(append([]byte{}, body...), TLV(2, si)...)), // three integers
-			TLV(0x30, append(append([]byte{}, body...), 5, 0)),      // trailing NULL inside
-			TLV(0x30, append(TLV(2, nil), TLV(2, si)...)),           // empty integer
-			TLV(0x31, body), TLV(0x10, body), TLV(0xb0, body),       // SET, primitive, context class
-			TLV(0x30, append(TLV(0x22, ri), TLV(2, si)...)),         // constructed INTEGER
-			TLV(0x30, append(TLV(0x03, ri), TLV(2, si)...)),         // BIT STRING
-			TLV(0x30, TLV(0x30, body)),                              // extra nesting
+			TLV(0x30, append(append([]byte{}, body...), 5, 0)),          // trailing NULL inside
+			TLV(0x30, append(TLV(2, nil), TLV(2, si)...)),               // empty integer
+			TLV(0x31, body), TLV(0x10, body), TLV(0xb0, body), // SET, primitive, context class
+			TLV(0x30, append(TLV(0x22, ri), TLV(2, si)...)), // constructed INTEGER
+			TLV(0x30, append(TLV(0x03, ri), TLV(2, si)...)), // BIT STRING
+			TLV(0x30, TLV(0x30, body)),                      // extra nesting
 			TLV(0x30, nil), []byte{0x30}, []byte{}, []byte{0x30, 0x81}, []byte{0x30, 0x84, 0, 0, 0, 6, 2, 1, 1, 2, 1, 1},
 			[]byte{0x30, 0x85, 0, 0, 0, 0, 6, 2, 1, 1, 2, 1, 1}, []byte{0x30, 0x88, 0, 0, 0, 0, 0, 0, 0, 6, 2, 1, 1, 2, 1, 1},
 		)
